@@ -204,6 +204,59 @@ theorem dequeue_null_only_if_empty_at_some_instant {c s s' t l} (hc : Current c)
   have ⟨a, _, b, d⟩ := null_linearizes hc r st
   ⟨a, b, d⟩
 
+/-- runs of the model with what each step returned, and runs of the sequential FIFO specification -/
+inductive Steps (c : Cfg) : State → List (Nat × Label × Out) → State → Prop
+  | nil (s) : Steps c s [] s
+  | cons {s s1 s2 t l o tr} : step c s t l = some (s1, o) → Steps c s1 tr s2 → Steps c s ((t, l, o) :: tr) s2
+
+inductive SpecRun : List Nat → List Out → List Nat → Prop
+  | nil (q) : SpecRun q [] q
+  | cons {q q1 q2 o os} : SpecStep q o q1 → SpecRun q1 os q2 → SpecRun q (o :: os) q2
+
+/-- **linearizability, history form**: every finite run of any number of threads from any reachable state (every
+interleaving, threads suspended anywhere) is, step for step and answer for answer, a run of the sequential FIFO queue on
+`abs`; each operation takes effect at one of its own steps between its call and its return. -/
+theorem lfq_trace_refines {c s s' tr} (hc : Current c) (r : Reach c s) (h : Steps c s tr s') :
+    SpecRun (abs s) (tr.map (·.2.2)) (abs s') ∧ Reach c s' := by
+  induction h with
+  | nil s => exact ⟨.nil _, r⟩
+  | cons st _ ih =>
+    have r1 := Reach.step r st
+    exact ⟨.cons (lfq_refines_fifo hc r st) (ih r1).1, (ih r1).2⟩
+
+/-- the step that changes the abstract queue / produces the answer of an operation is a step of the thread that runs the
+operation, taken inside it (after its call, before its return): linearisation points lie within the call interval -/
+theorem linearisation_inside_call {c s s' t l o} (st : step c s t l = some (s', o)) :
+    (∀ p, o = .node p → l = .casHead ∧ s.pc t = .dCas ∧ s'.pc t = .idle) ∧
+    (o = .null → s.pc t = .dLdN ∧ s'.pc t = .idle) ∧
+    (s'.enqd ≠ s.enqd → l = .casNext ∧ s.pc t = .eCas ∧ s'.pc t = .eAdv) := by
+  refine ⟨fun p ho => ?_, fun ho => ?_, fun he => ?_⟩
+  · obtain ⟨h1, -, h3, -, -, rfl⟩ := out_node st ho
+    exact ⟨h1, h3, by simp [casHeadOk, tick, upd]⟩
+  · obtain ⟨-, h2, -, -, rfl⟩ := out_null st ho
+    exact ⟨h2, by simp [ldNextNull, tick, upd]⟩
+  · rcases step_enqd st with e | ⟨h1, h2, h3, -, -, -, -⟩
+    · exact absurd e he
+    · subst h1
+      simp only [step, h2, h3, if_true, Option.some.injEq, Prod.mk.injEq] at st
+      obtain ⟨rfl, -⟩ := st
+      exact ⟨rfl, h2, by simp [casNextOk, tick, upd]⟩
+
+/-- **private until published** (the x86-TSO facet): while a thread is initialising / still owns the node it is about to
+link (its plain stores `next = NULL`, `dummy = 0|1` may still sit in its store buffer), the node is unreachable: not in
+the chain, not `q.head`, not `q.tail`, and no other thread holds a pointer to it.  The only step that makes it reachable
+is the owner's locked `cmpxchg` on `tail->next`, which drains the owner's store buffer first; every other shared
+mutation of the structure is a locked RMW as well, so a TSO run is an SC run of these steps. -/
+theorem private_until_published {c s t} (hc : Current c) (r : Reach c s) (ho : Owns (s.pc t)) :
+    s.node t ∉ s.chain ∧ s.node t ≠ s.head ∧ s.node t ≠ s.tail ∧
+    (∀ u, HoldsTl (s.pc u) → s.tl u ≠ s.node t) ∧ (∀ u, HoldsHd s u → s.hd u ≠ s.node t) := by
+  have i := reach_inv hc.1 r
+  obtain ⟨n1, -, -⟩ := i.e_node t ho
+  have nin : s.node t ∉ s.chain := fun e => by have := (i.inq_iff _).mpr e; rw [n1] at this; cases this
+  refine ⟨nin, fun e => nin (e ▸ i.head_in), fun e => nin (e ▸ i.tail_in), fun u hu e => ?_, fun u hu e => ?_⟩
+  · rcases i.tl_live u hu with l | l <;> rw [e, n1] at l <;> cases l
+  · rcases i.hd_live u hu with l | l <;> rw [e, n1] at l <;> cases l
+
 /-- the full statement of C12 at the level of the model (every conjunct is proved above) -/
 def C12_full : Prop :=
   ∀ c, Current c → ∀ s, Reach c s →
@@ -212,14 +265,16 @@ def C12_full : Prop :=
     s.tail ∈ s.chain ∧ (s.next s.tail = 0 ∨ s.next (s.next s.tail) = 0) ∧
     s.chain ≠ [] ∧ s.uaf = false ∧
     (∀ t l s' p, step c s t l = some (s', .node p) → s.isDummy p = false) ∧
-    (∀ t p s' o, step c s t (.reclaim p) = some (s', o) → ∀ u, s.pre p u = false)
+    (∀ t p s' o, step c s t (.reclaim p) = some (s', o) →
+      s.life p = .removed ∧ (∀ u, s.pre p u = false) ∧ ∀ u b, s.cs u = some b → s.removedAt p < b) ∧
+    (∀ tr s', Steps c s tr s' → SpecRun (abs s) (tr.map (·.2.2)) (abs s'))
 
 theorem C12_full_holds : C12_full := by
   intro c hc s r
   have i := reach_inv hc.1 r
   exact ⟨fun t l s' o st => lfq_refines_fifo hc r st, i.fifo, (each_node_dequeued_once hc r).1, i.tail_in, i.tail_ok,
     (always_one_node hc r).1, i.no_uaf, fun t l s' p st => (dummy_never_returned hc r st).1,
-    fun t p s' o st => (dummy_freed_after_gp hc r st).2.1⟩
+    fun t p s' o st => dummy_freed_after_gp hc r st, fun tr s' h => (lfq_trace_refines hc r h).1⟩
 
 /-! ### Non-vacuity: concrete runs of the executable model (3 threads) exercising the hypotheses -/
 
